@@ -293,6 +293,29 @@ theorem chain_keeps_separated_line (genes : List Gene) (hc : Consec 0 genes)
   obtain ⟨R, hR, hl, _⟩ := chain_blocks_spec genes hc h
   exact ⟨R, hR, hl⟩
 
+/-- 8d. regions that cross the origin of a circular record: `generate_domains` walks the genes in the
+    order `region.cds_children` provides — for an origin-crossing region beginning at `s` the genes
+    before the origin (start ≥ s) first, then those after it (`regionGenes`), NOT in ascending
+    start order.  Read in *that* order the assembly line is kept and merges happen only between
+    direct neighbours: the last gene before the origin and the first one after it are neighbours,
+    the former upstream of the latter on the forward strand (downstream on the reverse strand). -/
+theorem generate_over_origin (cross : Option Nat) (genes : List Gene)
+    (h : ∀ g ∈ genes, InputOK g.domains g.name) :
+    ∃ out, generateRegion cross genes = .ok out
+      ∧ Spec.chainLineOK (reindex (regionGenes cross genes))
+          (out.map fun r => (r.name, r.modules.map (·.components))) = true
+      ∧ Spec.chainBlocksOK (reindex (regionGenes cross genes))
+          (out.map fun r => (r.name, r.modules.map (·.components))) = true := by
+  have hin : ∀ g ∈ reindex (regionGenes cross genes), InputOK g.domains g.name := by
+    intro g hg
+    obtain ⟨g0, hg0, h1, h2⟩ := reindex_mem _ g hg
+    rw [h1, h2]
+    exact h g0 (mem_regionGenes cross genes g0 hg0)
+  obtain ⟨out, ho, h1⟩ := chain_reports_assembly_line _ hin
+  obtain ⟨out', ho', h2⟩ := chain_merges_only_neighbours _ (consec_reindex _) hin
+  rw [ho] at ho'; injection ho' with ho'; subst ho'
+  exact ⟨out, ho, h1, h2⟩
+
 /-! ### the HMMResult under a Component (hmmscan_refinement.py): nested internal hits, the
     `detailed_names` chain the subtypes are read from, `to_json` / `from_json` -/
 
@@ -514,7 +537,7 @@ example : Spec.chainLine [⟨0, -1, 0, leftComps, false⟩, ⟨1, -1, 1, rightCo
 /-- a gene with hits but no module of its own (only docking domains) between two genes is a barrier -/
 example : Spec.chainLine [⟨0, 1, 0, leftComps, false⟩, ⟨1, 1, 0, [], true⟩, ⟨2, 1, 0, rightComps, false⟩]
     = leftComps ++ [Spec.sepComp] ++ [Spec.sepComp] ++ rightComps := by decide
-example : Consec 0 [⟨"a", 1, 0, [], false, 0⟩, ⟨"b", 1, 0, [], false, 1⟩] := ⟨rfl, rfl, trivial⟩
+example : Consec 0 [⟨"a", 1, 0, [], false, 0, 0⟩, ⟨"b", 1, 0, [], false, 1, 0⟩] := ⟨rfl, rfl, trivial⟩
 
 
 /-! ### non-vacuity for 10: an incomplete terminating module [PCP, Thioesterase] and an incomplete
@@ -535,7 +558,7 @@ example : (match ModFeature.construct [fd "d1", ⟨"d2", "gene", -1⟩] .pks tru
 /-! ### non-vacuity for 10c: tandem duplicates `a = b = [PCP, C, A]` with identical coordinates; the
     merged module held by `a` is [C@a, A@a, PCP@b]: the PCP must be b's, not a's equal hit -/
 def dupDomains : List Domain := [⟨"PCP", [], 10, 90⟩, ⟨"Condensation_LCL", [], 110, 190⟩, ⟨"AMP-binding", [], 210, 290⟩]
-def dupGenes : List Gene := [⟨"a", 1, 0, dupDomains, false, 0⟩, ⟨"b", 1, 0, dupDomains, false, 1⟩]
+def dupGenes : List Gene := [⟨"a", 1, 0, dupDomains, false, 0, 0⟩, ⟨"b", 1, 0, dupDomains, false, 1, 0⟩]
 def mergedComps : List Comp :=
   [⟨"Condensation_LCL", [], 110, 190, "a"⟩, ⟨"AMP-binding", [], 210, 290, "a"⟩, ⟨"PCP", [], 10, 90, "b"⟩]
 example : (match lookupDomains (geneTables dupGenes) "a" mergedComps with
@@ -543,5 +566,14 @@ example : (match lookupDomains (geneTables dupGenes) "a" mergedComps with
            | .error _ => false) = true := by decide
 /-- the equal hit is indeed in the holder's dict: looking there first would return a's PCP -/
 example : ((geneTables dupGenes "a" ⟨"PCP", [], 10, 90⟩).map (·.locus)) = some "a" := by decide
+
+
+/-! ### non-vacuity for 8d: circular record of 3000, region from 2400 over the origin to 600;
+    in record order `after` (start 100) comes first, the region lists `before` (start 2500) first -/
+def gAfter : Gene := ⟨"after", 1, 0, [], false, 0, 100⟩
+def gBefore : Gene := ⟨"before", 1, 0, [], false, 0, 2500⟩
+example : (regionGenes (some 2400) [gAfter, gBefore]).map (·.name) = ["before", "after"] := by decide
+example : (regionGenes none [gAfter, gBefore]).map (·.name) = ["after", "before"] := by decide
+example : (reindex (regionGenes (some 2400) [gAfter, gBefore])).map (·.index) = [0, 1] := by decide
 
 end ASV.C14
